@@ -28,8 +28,17 @@ class Built:
         self.globals = []
 
 
-def subst(expr, ret='verif_ret'):
+def subst(expr, ret='verif_ret', f=None):
     expr = expr.replace('\\result', ret).replace('\\thrown', 'verif_thrown')
+    if f is not None and '$' in expr:
+        # $param: the parameter OBJECT, whether the code takes it by value or by reference
+        refs = {n: r for _, n, r in f.params}
+        def rep(m):
+            n = m.group(1)
+            if n not in refs:
+                raise ExtractError('%s: contract mentions $%s but the function has no such parameter (renamed?)' % (f.qual, n))
+            return '(*%s)' % n if refs[n] else n
+        expr = re.sub(r'\$(\w+)', rep, expr)
     expr = re.sub(r'<==>', '==', expr)
     # a ==> b  (right associative, lowest precedence): handled by the IMPLIES macro instead
     return expr
@@ -190,7 +199,7 @@ class Builder:
         for d in fs.decls:
             out.append('    ' + d)
         for r in fs.requires:
-            out.append('    __CPROVER_assert(verif_thrown || (%s), "%s/call %s/requires");' % (subst(r), caller, cn))
+            out.append('    __CPROVER_assert(verif_thrown || (%s), "%s/call %s/requires");' % (subst(r, f=f), caller, cn))
         olds = {}
         for _, e in fs.ensures:
             for full, inner in find_olds(e):
@@ -204,7 +213,7 @@ class Builder:
                 out.append('    __CPROVER_assume(%s);' % v)
         out.append('    { _Bool verif_t; if (!verif_thrown) verif_thrown = verif_t; }   /* may throw unless the contract says otherwise */')
         for d in fs.lets:
-            out.append('    ' + d)
+            out.append('    ' + subst(d, f=f))
         if f.ret != 'void':
             out.append('    %s verif_ret;' % f.ret)
             v = self.tr.tm.valid(f.ret, 'verif_ret')
@@ -217,7 +226,7 @@ class Builder:
                     continue          # not part of what callers may assume
             for full, v in olds.items():
                 e = e.replace(full, v)
-            out.append('    __CPROVER_assume(%s);' % subst(e))
+            out.append('    __CPROVER_assume(%s);' % subst(e, f=f))
         if f.ret != 'void':
             out.append('    return verif_ret;')
         out.append('}')
@@ -243,9 +252,9 @@ class Builder:
         for d in fs.decls:
             out.append('    ' + d)
         for r in fs.requires:
-            out.append('    __CPROVER_assume(%s);' % subst(r))
+            out.append('    __CPROVER_assume(%s);' % subst(r, f=f))
         for d in fs.lets:
-            out.append('    ' + d)
+            out.append('    ' + subst(d, f=f))
         olds = {}
         for _, e in fs.ensures:
             for full, inner in find_olds(e):
@@ -293,7 +302,7 @@ class Builder:
                 e = e.replace(full, v)
             desc = '%s/ensures %s' % (tag, nm)
             names.append(desc)
-            out.append('    __CPROVER_assert(%s, "%s");' % (subst(e), desc))
+            out.append('    __CPROVER_assert(%s, "%s");' % (subst(e, f=f), desc))
         for t, lv, snap in frame:
             desc = '%s/frame %s unchanged' % (tag, lv)
             out.append('    __CPROVER_assert(%s, "%s");' % (self.eq(t, lv, snap, ghost), desc))
